@@ -943,7 +943,10 @@ def testStartApplication (w : W) (a : Nat) (strat : Strategy) : List Out :=
   -- the mock processes are fresh `ProcessStatus` objects: same state and per-instance information, listed nowhere, not forced
   let w0 : W := { w with live := some w.procs, procs := w.procs.map (fun x => { x with running := [], forced := none }),
                          planned := [], current := [], splanned := [], scurrent := [], modelEvents := [], out := [] }
-  let (_, w1) := (do startApplication 200 a strat; feedModel 200 400).run w0
+  -- `Starter.start_application` tests `application.stopped()` on the LIVE application (displayed states, forced ones included);
+  -- the plan is then made of mock copies that start from the REAL state of each process
+  if !(appStopped a).run' w then [] else
+  let (_, w1) := (do storeApplication a strat; starterNext 200; feedModel 200 400).run w0
   w1.out
 
 /-- an actual start of the application in which every requested process starts normally: STARTING then RUNNING (then an
